@@ -180,4 +180,52 @@ theorem flag_before_file_sync_refuted :
 /-- the policy read from fs/file.go is the one the theorem is about -/
 theorem flag_policy_from_source : FlagPolicy.ofCode Generated.fileSyncFlagPolicy = .afterDirSync := by decide
 
+/-! ## a deletion reported done is durable, also when an earlier attempt failed half-way -/
+
+theorem dstep_ack (s : OState) (n : String) (o : Bool) (s' : OState) (h : dstep s n o = some (s', true)) :
+    s'.pendingUnlinks = [] ∧ (s'.get n).exist = false := by
+  unfold dstep fsDeleteF at h
+  cases he : (s.files n).exist <;> cases o <;> simp [OState.get, he, run, exec, OState.set] at h
+  subst h
+  simp [OState.get]
+
+/-- **acknowledged_delete_is_durable**: after ANY sequence of Delete calls for a name in which the directory fsync may
+    fail any number of times, a call that returns nil leaves no removal pending (the unlink is followed by a successful
+    fsync of the directory) and the name gone.  In particular a retry after "unlink done, directory fsync failed" does not
+    report the deletion done: the name is gone and unlink's ENOENT is returned. -/
+theorem acknowledged_delete_is_durable (os : List Bool) (s : OState) (n : String) (s' : OState)
+    (h : drun s n os = some (s', some true)) : s'.pendingUnlinks = [] ∧ (s'.get n).exist = false := by
+  induction os generalizing s with
+  | nil => simp [drun] at h
+  | cons o os ih =>
+    cases os with
+    | nil =>
+      simp only [drun] at h
+      cases hd : dstep s n o with
+      | none => simp [hd] at h
+      | some r =>
+        obtain ⟨s1, a⟩ := r
+        simp [hd] at h
+        obtain ⟨h1, h2⟩ := h
+        subst h1; subst h2
+        exact dstep_ack s n o s1 hd
+    | cons o2 rest =>
+      simp only [drun] at h
+      cases hd : dstep s n o with
+      | none => simp [hd] at h
+      | some r =>
+        obtain ⟨s1, a⟩ := r
+        simp only [hd] at h
+        exact ih s1 h
+
+/-- the retry after a failed directory fsync answers with an error (non-vacuity: the history is executable) -/
+example : ∃ s', drun (({} : OState).set "a.wal" { exist := true }) "a.wal" [false, true, true] = some (s', some false) :=
+  ⟨_, rfl⟩
+
+/-- a Delete that treated "already gone" as done would acknowledge a removal that is still pending -/
+theorem delete_idempotent_refuted :
+    ∃ s', run (({} : OState).set "a.wal" { exist := true }) [.unlink "a.wal"] = some s' ∧ s'.pendingUnlinks ≠ [] := by
+  refine ⟨_, rfl, ?_⟩
+  simp
+
 end RaftWal.C07
